@@ -5,6 +5,7 @@ open Drvlib
    R fuel root nfiles (path nlines line* )* ninvalid text*      -> req_iter
    F fuel root nfiles (...)* ninvalid text* nroot line* nbi url* nbe url* nbf link* noindex  -> cli_front_full | bazel_front
    X text                                                       -> shlex_split (drop_comment text), drop_comment text
+   G fuel nroots root.. nfiles files.. ninvalid text.. nroots [nlines line..].. nbi.. nbe.. nbf.. noindex -> cli_front_files | bazel_front_files | per-file find-links
    S nlines line*                                               -> iter_lines with relative_dir=None, no files
    B nlines line*                                               -> parse_index_urls
    A ntoks tok*                                                 -> cli_parse
@@ -82,6 +83,20 @@ let handle line =
     let bno = next_bool st in
     let r = req_iter (mk_valid invalid) (mk_fs files) fuel root in
     print_front (cli_front_full bi be bf bno r) ^ " | " ^ print_front (bazel_front r root_lines)
+  | "G" ->
+    let fuel = nat_of_int (next_int st) in
+    let roots = next_list st next_str in
+    let files = next_files st in
+    let invalid = next_list st next_str in
+    let liness = next_list st (fun st -> next_list st next_str) in
+    let bi = next_list st next_str in
+    let be = next_list st next_str in
+    let bf = next_list st next_str in
+    let bno = next_bool st in
+    let r = read_files (mk_valid invalid) (mk_fs files) fuel roots in
+    print_front (cli_front_files bi be bf bno r) ^ " | " ^ print_front (bazel_front_files r liness) ^ " | " ^
+    string_of_int (List.length liness) ^ " " ^
+    String.concat " " (List.map (fun ls -> let ((_, _), c) = parse_index_urls ls in strs c) liness)
   | "S" ->
     let lines = next_list st next_str in
     let invalid = next_list st next_str in
